@@ -1,6 +1,7 @@
 (* C01 — Binary encoding round-trips every value and is exactly the documented layout. *)
-From Coq Require Import List NArith ZArith.
-From JB Require Import Constants Bytes Num Value Codec.
+From Coq Require Import List NArith ZArith Bool.
+Import ListNotations.
+From JB Require Import Constants Bytes Num NumProofs Value Codec Order CodecProofs RoundtripProofs.
 Open Scope N_scope.
 
 (* the constants the translator read from src/constants.rs are the ones the README documents *)
@@ -14,3 +15,42 @@ Theorem C01_readme_constants :
     = (0x00, 0x10, 0x20, 0x30, 0x40, 0x50, 0x60).
 Proof. repeat split. Qed.
 Print Assumptions C01_readme_constants.
+
+(* the encoder of ser.rs (buffer, reserve_jentries, replace_jentry back-patching) writes exactly the layout
+   function `enc`: header word = kind | count, one entry word per element = type | exact payload length,
+   object keys once, ahead of the values, numbers in compact form *)
+Theorem C01_encoder_writes_the_layout : forall v, wf_size v = true -> to_vec v = enc v.
+Proof. exact to_vec_is_layout. Qed.
+Print Assumptions C01_encoder_writes_the_layout.
+
+(* every entry word carries the exact byte length of its payload *)
+Theorem C01_entry_lengths_exact : forall v, wf_size v = true -> je_len (fst (enc_item v)) = lenN (snd (enc_item v)).
+Proof. exact word_len. Qed.
+Print Assumptions C01_entry_lengths_exact.
+
+(* decoding an encoding gives the value back; `normalise` is the only representation change of a round trip:
+   Int64 0 becomes UInt64 0 and every NaN becomes the canonical NaN *)
+Theorem C01_decode_encode : forall v, wfb v = true -> parse_jsonb (enc v) = Ok (normalise v).
+Proof. exact parse_jsonb_enc. Qed.
+Print Assumptions C01_decode_encode.
+
+Theorem C01_decoded_value_is_equal : forall v, cmp_value (normalise v) v = Eq.
+Proof. exact normalise_equal. Qed.
+Print Assumptions C01_decoded_value_is_equal.
+
+(* re-encoding the decoded value reproduces the identical bytes *)
+Theorem C01_reencode_identical : forall v d, wfb v = true -> parse_jsonb (enc v) = Ok d -> enc d = enc v /\ cmp_value d v = Eq.
+Proof. exact reencode_identical. Qed.
+Print Assumptions C01_reencode_identical.
+
+(* numbers: exact through the compact codec, in the shortest of the 1/2/3/5/9 byte forms *)
+Theorem C01_numbers_exact : forall n, num_in_range n = true -> num_decode (compact_encode n) = Ok (normalise_num n).
+Proof. exact num_roundtrip. Qed.
+Print Assumptions C01_numbers_exact.
+
+(* non-vacuity: a nested value with an empty object in the middle of an array, a multi-byte key, width boundaries *)
+Example C01_example_is_well_formed :
+  wfb (VArr [VStr [97]; VObj []; VNum (NUInt 127); VNum (NUInt 128); VNum (NInt (-32769));
+             VObj [([195; 169], VArr [VNull; VNum (NFloat 4607182418800017408)])]]) = true.
+Proof. vm_compute. reflexivity. Qed.
+Print Assumptions C01_example_is_well_formed.
